@@ -666,6 +666,15 @@ impl Model {
             self.known_ids.insert(i);
         }
         self.apply_released(cx, s);
+        // X4: once the transport has been reported closed the object accepts a new connection
+        if let Pkt::Connect { ver, .. } = pkt {
+            if cx.status_before == St::D && self.role != Role::Server && self.ver == Some(*ver) {
+                s.hit("X4-new-connection-accepted-after-close");
+                if has_err || !sent_self {
+                    s.fail("C05", "X4-new-connection-accepted-after-close", format!("path=client;err={}", err_name), format!("send(CONNECT) on a disconnected {:?} object was not passed on: {}", self.role, evs_short(evs)));
+                }
+            }
+        }
         match pkt {
             Pkt::Connect { ver, clean, keep_alive, props, .. } if !has_err && sent_self => {
                 self.new_connection();
@@ -991,6 +1000,14 @@ impl Model {
             }
         }
         let status_at_frame = self.status;
+        if let Some(Pkt::Connect { user, pass, .. }) = &decoded {
+            if status_at_frame == St::D && self.role != Role::Client && !(user.is_none() && pass.is_some()) {
+                s.hit("X4-new-connection-accepted-after-close");
+                if !matches!(recv, Some((Pkt::Connect { .. }, _))) {
+                    s.fail("C05", "X4-new-connection-accepted-after-close", "path=server".into(), format!("a well-formed CONNECT received by a disconnected {:?} object was not delivered: {}", self.role, evs_short(evs)));
+                }
+            }
+        }
         if let Some((pkt, extracted)) = recv {
             if let Some(i) = pkt.id() {
                 self.known_ids.insert(i);
